@@ -125,21 +125,26 @@ func parseWopts(m map[string]string) *mcap.WriterOptions {
 // directDecompress calls the codec libraries directly (never through go/mcap).
 // It returns the bytes delivered before the stream ended and how it ended.
 func directDecompress(format string, payload []byte) ([]byte, string) {
+	return directDecompressStream(format, payload, "eof")
+}
+
+func directDecompressStream(format string, payload []byte, tail string) ([]byte, string) {
 	var r io.Reader
+	var in io.Reader = &tailReader{r: bytes.NewReader(payload), tail: tail}
 	switch format {
 	case "":
-		return payload, "eof"
+		r = in
 	case "zstd":
-		d, err := zstd.NewReader(bytes.NewReader(payload))
+		d, err := zstd.NewReader(in)
 		if err != nil {
 			return nil, "other"
 		}
 		defer d.Close()
 		r = d
 	case "lz4":
-		r = lz4.NewReader(bytes.NewReader(payload))
+		r = lz4.NewReader(in)
 	case "xor":
-		r = &xorReader{r: bytes.NewReader(payload)}
+		r = &xorReader{r: in}
 	default:
 		return nil, "unsupported"
 	}
